@@ -72,6 +72,27 @@ def second_pass(run, cases_, impl_out):
             a = items[0]
             b = next(x for x in items if x[1] != a[1])
             run.findings.append(Finding("failing-input", f"the verdict depends on the library of the arrays: {a[1]!r} vs {b[1]!r} for {b[0].line!r}", a[0], a[1], "", ""))
+    # the REPORT too: the full text of every rejection that names no dtype (rank, axis size, unbound name, duplicate) is the same under
+    # every assignment of libraries (sizes are printed as plain integers, not as a library's own rendering of a shape)
+    import impl
+
+    rejected = [g for g, items in groups.items() if len({io for _, io in items}) == 1 and any(k in items[0][1] for k in ("reject ndims", "reject shape", "reject invalidref", "reject duplicate"))]
+    step = max(1, len(rejected) // (300 if run.tier == "quick" else 3000))
+    n = 0
+    impl.REPORT_TEXT[0] = True
+    try:
+        for g in rejected[::step]:
+            texts = {}
+            for c, _ in groups[g]:
+                texts.setdefault(impl.handle(c.line), c)
+                n += 1
+            if len(texts) > 1:
+                (ta, ca), (tb, cb) = list(texts.items())[:2]
+                run.findings.append(Finding("failing-input", f"the report depends on the library of the arrays: {ta[-160:]!r} for {ca.line!r} vs {tb[-160:]!r} for {cb.line!r}", cb, tb, "", ta))
+    finally:
+        impl.REPORT_TEXT[0] = False
+    run.n_cases += n
+    run.coverage["report_texts_compared"] = n
     return []
 
 
